@@ -433,6 +433,8 @@ def explore(fn, types, *, budget_s=60.0, per_path_s=10.0, stubs=None,
                 if k not in seen_viol:
                     seen_viol.add(k)
                     res["violations"].append(rec)
+                else:
+                    res["dup_violations"] = res.get("dup_violations", 0) + 1
                 if kind != "viol":
                     # native shows a violation the symbolic run did not see: still a real
                     # violation (it replays), but the encoding missed it -- note it.
@@ -459,6 +461,8 @@ def explore(fn, types, *, budget_s=60.0, per_path_s=10.0, stubs=None,
             res["exhausted"] = True
             break
         if len(res["violations"]) >= max_violations or len(res["errors"]) >= 10:
+            break
+        if res.get("dup_violations", 0) >= 150:      # the same finding over and over: the cell is refuted, stop
             break
     res["queries"] = _STATS.queries - q0
     res["solver_s"] = round(_STATS.seconds - s0, 3)
